@@ -21,10 +21,28 @@ def enc_tree(t):
     if isinstance(t, ConditionNOT):
         return ["not", enc_tree(t.args[0]) if t.args else None]
     if isinstance(t, ConditionAND):
+        d = whole_detection(t)
+        if d is not None:
+            return ["leaf", d]
         return ["and", [enc_tree(a) for a in t.args]]
     if isinstance(t, ConditionOR):
         return ["or", [enc_tree(a) for a in t.args]]
     return ["other", type(t).__name__]
+
+
+def whole_detection(t):
+    """A detection normally is the single item d<k>: <k>. Collection action 'repeat' (and a global template)
+    deep-merges a detection of the same name into ONE detection with several items, e.g. {d1: 1, d2: 2}; its
+    postprocessed form is the AND of exactly its items, hanging below the ConditionIdentifier that named it
+    (a selector's AND/OR hangs below the selector's parent instead). Such a node is ONE detection object,
+    named like det_id() names it (by its first item) - as the source documents after the collection actions
+    name it. Returns that id or None."""
+    from sigma.conditions import ConditionIdentifier
+    if not isinstance(t.parent, ConditionIdentifier) or len(t.args) < 2:
+        return None
+    if not all(isinstance(a, ConditionFieldEqualsValueExpression) for a in t.args):
+        return None
+    return int(t.args[0].field[1:])
 
 
 def cond_tree(cond):
